@@ -24,23 +24,35 @@ func NewSortedInts(x ...int) SortedInts {
 	return tmp[:len(tmp)-numberOfRepeats]
 }
 
-//Range creates a SortedInts by adding all the elements of the form start + i*step which lie in [start, end).
+//Range creates a SortedInts by adding all the elements of the form start + i*step (i = 0, 1, 2, ...) which lie in [start, end) if step is positive and in (end, start] if step is negative.
 func Range(start, end, step int) SortedInts {
 	if (end < start && step > 0) || (end > start && step < 0) || (end != start && step == 0) {
 		panic("Infinite set")
 	}
-	if end == start {
-		return []int{}
+	const maxInt = int(^uint(0) >> 1)
+	const minInt = -maxInt - 1
+	tmp := []int{}
+	if step > 0 {
+		for i := start; i < end; i += step {
+			tmp = append(tmp, i)
+			if i > maxInt-step {
+				//The next element would overflow.
+				break
+			}
+		}
+		return tmp
 	}
 
-	if end < start {
-		start, end = end, start
-		step = -step
-	}
-
-	tmp := make([]int, 0, (end-start+step-1)/step)
-	for i := start; i < end; i += step {
+	//A descending range is start, start + step, ... and is returned in increasing order.
+	for i := start; i > end; i += step {
 		tmp = append(tmp, i)
+		if i < minInt-step {
+			//The next element would overflow.
+			break
+		}
+	}
+	for i, j := 0, len(tmp)-1; i < j; i, j = i+1, j-1 {
+		tmp[i], tmp[j] = tmp[j], tmp[i]
 	}
 	return tmp
 }
